@@ -225,11 +225,9 @@ theorem trace_probe_last {v cap} {s s' : State} {h : List Event} {c : Bool} {q f
       obtain ⟨s3, t3, r⟩ := ih hh
       exact ⟨s3, Trace.vis hf t3, r⟩
 
-end Tars.ClientConn
-
-namespace Tars.ClientConn
 theorem reachable_start {v cap} (idle : Bool) : Reachable v cap (if idle then init else initNoIdle) := by
   cases idle
   · exact Reachable.initNoIdle
   · exact Reachable.init
+
 end Tars.ClientConn
